@@ -85,4 +85,29 @@ CHECKS['C01'] = {
             'change, raise or block. Every landing index is enumerated for thread/process one-shot workers in the quick tier.',
     'note': 'Line granularity (not opcode); landings inside stdlib frames are represented by the calling pyworkers line; one open finding (process except-handler window).',
 }
+CHECKS['C03'] = {
+    'engine': 'INJECT', 'level': 'fault_enumeration', 'design_ref': 'DESIGN.md 3.1, 4 (C03)',
+    'technique': 'fault injection: the real terminate() is made to land at a generated line of the child (incl. inside the target try body, its finally, the bookkeeping after it, the except handler), outcome + finally-marker oracle',
+    'text': 'For all six classes the child is held at its n-th traced line, the real terminate(timeout=5, force=False) travels the real control path and the '
+            'exception surfaces at that line. Oracle: terminate returns True, worker dead, outcome = terminated shape or own outcome; delivery inside the target '
+            'try body requires the terminated shape and the finally marker written by the worker thread. An endless target makes a lost exception visible as '
+            'terminate returning False. Idle persistent workers are terminated uninstrumented.',
+    'note': 'Line granularity; one open finding (process except-handler window, shared with C01).',
+}
+CHECKS['C06'] = {
+    'engine': 'INJECT', 'level': 'fault_enumeration', 'design_ref': 'DESIGN.md 3.1, 4 (C06)',
+    'technique': 'fault injection (terminate / SIGKILL / SIGTERM at a generated line of the persistent child loop, poison items) with a prefix oracle on the result stream',
+    'text': 'Persistent workers of the three kinds get 0-5 items and an ending landing at a generated line of do_work/_send_result/_cleanup/_run; the values '
+            'read after death must be a prefix of the expected sequence, the stream must end (queue.Empty / iterator stops / marker or EOF on a caller-supplied pipe) '
+            'and raw counters must be consecutive.',
+    'note': 'The parent-side forwarding thread of the remote kind is not traced (its landing points are sampled only by timing); one open finding (thread kind + supplied pipe).',
+}
+CHECKS['C16'] = {
+    'engine': 'INJECT', 'level': 'exploration', 'design_ref': 'DESIGN.md 4 (C16)',
+    'technique': 'property-based testing over generated incarnation chains with a pause/terminate injector and a last-assigned-value reference model',
+    'text': 'Stateful subclasses of all six classes assign generated values to user_state; endings return/raise/terminate@n; the parent reads user_state, has_error, '
+            'result in a generated order; chains of up to three incarnations pass the state on by re-creation or restart(); a paused child lets the parent read '
+            'during the alive phase.',
+    'note': 'For terminate endings any prefix of the assignments is accepted as final state (the exact cut is not pinned).',
+}
 NOT_APPLICABLE = {}
